@@ -13,3 +13,37 @@ def isAuthorizedPath (A : List String) (cp : List String) : Bool :=
   (List.range (cp.length + 1)).any (fun k => decide (dotted (cp.take k) ∈ A))
 
 end Dds
+
+/-!
+## Which objects of a module are tracked (`dds/_retrieve_objects.py`: `_is_authorized_type`)
+
+The value a name of an accepted module is bound to is tracked (its hash enters the signature of the functions
+that read it), ignored, or refused, by its type alone. Only the two container options move anything, and each
+moves its own container kind only.
+-/
+namespace Dds
+
+/-- the kinds of types `_is_authorized_type` distinguishes -/
+inductive ObjKind where
+  | scalar          -- int float str bytes bool NoneType PurePosixPath datetime date time timedelta timezone
+  | tuple | function | module
+  | list
+  | dict            -- dict and OrderedDict
+  | noModule        -- a class `inspect.getmodule` finds no module for
+  | ofAccepted      -- any other class defined in an accepted module
+  | ofForeign       -- any other class defined in a module that is not accepted
+  deriving DecidableEq, Repr
+
+inductive Tracking where
+  | tracked | ignored | refused
+  deriving DecidableEq, Repr
+
+def objTracking (acceptList acceptDict : Bool) : ObjKind → Tracking
+  | .scalar | .tuple | .function | .module => .tracked
+  | .list => if acceptList then .tracked else .ignored
+  | .dict => if acceptDict then .tracked else .ignored
+  | .noModule => .ignored
+  | .ofAccepted => .refused
+  | .ofForeign => .ignored
+
+end Dds
